@@ -13,6 +13,11 @@
 //! name      = IANA name (RFC 9557 time-zone-name) or a numeric offset
 //! ```
 //!
+//! `read_pieces` additionally reads the grammar of `Pieces` texts
+//! (`date [sep time [offset]] ["[" ["!"] name "]"]`). The second half of the
+//! file, W-fmt, *writes* the canonical forms independently (used for the
+//! canonical text -> value -> text direction).
+//!
 //! Offset hours up to 25 are accepted because that is jiff's documented offset
 //! range (RFC 3339 proper stops at 23); `+26:00` and beyond are refused.
 //! No dependency on jiff; the instant is computed with `refmodel::cal`.
@@ -35,6 +40,8 @@ pub struct Read {
     pub time: Option<(i64, i64, i64, i64, u8)>,
     pub off: Option<Off>,
     pub ann: Option<String>,
+    /// the annotation carried the RFC 9557 critical flag `!`
+    pub critical: bool,
 }
 
 impl Read {
@@ -182,7 +189,17 @@ fn offset(c: &mut Cur) -> Result<Off, String> {
 }
 
 fn annotation(c: &mut Cur) -> Result<String, String> {
+    annotation_flag(c, false).map(|(n, _)| n)
+}
+
+/// `[name]`, or with `allow_critical` also `[!name]`.
+fn annotation_flag(c: &mut Cur, allow_critical: bool) -> Result<(String, bool), String> {
     c.eat(b'[')?;
+    let mut critical = false;
+    if allow_critical && c.peek() == Some(b'!') {
+        c.i += 1;
+        critical = true;
+    }
     let st = c.i;
     while let Some(ch) = c.peek() {
         if ch == b']' {
@@ -214,7 +231,7 @@ fn annotation(c: &mut Cur) -> Result<String, String> {
             }
         }
     }
-    Ok(name)
+    Ok((name, critical))
 }
 
 pub fn read_date(s: &str) -> Result<Read, String> {
@@ -223,7 +240,7 @@ pub fn read_date(s: &str) -> Result<Read, String> {
     if !c.done() {
         return Err("trailing bytes".into());
     }
-    Ok(Read { ymd: Some(ymd), sep: None, time: None, off: None, ann: None })
+    Ok(Read { ymd: Some(ymd), sep: None, time: None, off: None, ann: None, critical: false })
 }
 
 pub fn read_time(s: &str) -> Result<Read, String> {
@@ -232,7 +249,7 @@ pub fn read_time(s: &str) -> Result<Read, String> {
     if !c.done() {
         return Err("trailing bytes".into());
     }
-    Ok(Read { ymd: None, sep: None, time: Some(t), off: None, ann: None })
+    Ok(Read { ymd: None, sep: None, time: Some(t), off: None, ann: None, critical: false })
 }
 
 /// `date sep time [offset] [annotation]`; what must be present is chosen by
@@ -253,5 +270,111 @@ pub fn read_full(s: &str, want_offset: bool, want_ann: bool) -> Result<Read, Str
     if !c.done() {
         return Err(format!("trailing bytes at {}", c.i));
     }
-    Ok(Read { ymd: Some(ymd), sep: Some(sep), time: Some(t), off, ann })
+    Ok(Read { ymd: Some(ymd), sep: Some(sep), time: Some(t), off, ann, critical: false })
+}
+
+/// The grammar of `Pieces` texts: `date [sep time [offset]] [annotation]`
+/// where the annotation may carry the critical flag. Everything after the
+/// date is optional; an offset needs a time.
+pub fn read_pieces(s: &str) -> Result<Read, String> {
+    let mut c = Cur { b: s.as_bytes(), i: 0 };
+    let ymd = date(&mut c)?;
+    let mut rd = Read { ymd: Some(ymd), sep: None, time: None, off: None, ann: None, critical: false };
+    if let Some(x @ (b'T' | b't' | b' ')) = c.peek() {
+        c.i += 1;
+        rd.sep = Some(x);
+        rd.time = Some(time(&mut c)?);
+        if matches!(c.peek(), Some(b'Z' | b'z' | b'+' | b'-')) {
+            rd.off = Some(offset(&mut c)?);
+        }
+    }
+    if c.peek() == Some(b'[') {
+        let (name, critical) = annotation_flag(&mut c, true)?;
+        rd.ann = Some(name);
+        rd.critical = critical;
+    }
+    if !c.done() {
+        return Err(format!("trailing bytes at {}", c.i));
+    }
+    Ok(rd)
+}
+
+// ---------------------------------------------------------------------------
+// W-fmt: an independent writer of the canonical forms (no jiff). Used for the
+// text -> value -> text direction: the texts of the enumerated grammar are
+// produced here, and what jiff prints for the value it parsed from such a text
+// must be that text again.
+// ---------------------------------------------------------------------------
+
+/// `YYYY-MM-DD`, or `-YYYYYY-MM-DD` for negative years (six digits).
+pub fn fmt_date(y: i64, m: i64, d: i64) -> String {
+    if y >= 0 {
+        format!("{:04}-{:02}-{:02}", y, m, d)
+    } else {
+        format!("-{:06}-{:02}-{:02}", -y, m, d)
+    }
+}
+
+/// The fraction (with its leading '.') of `ns` nanoseconds: `prec == None`
+/// means as many digits as needed and no trailing zeros (nothing at all for
+/// 0); `Some(p)` means exactly `min(p, 9)` digits, truncating (nothing for 0).
+pub fn fmt_fraction(ns: i64, prec: Option<u8>) -> String {
+    let all = format!("{:09}", ns);
+    match prec {
+        None => {
+            let t = all.trim_end_matches('0');
+            if t.is_empty() {
+                String::new()
+            } else {
+                format!(".{}", t)
+            }
+        }
+        Some(0) => String::new(),
+        Some(p) => format!(".{}", &all[..(p.min(9) as usize)]),
+    }
+}
+
+/// `HH:MM:SS[.fraction]` of a nanosecond-of-day.
+pub fn fmt_time(day_ns: i128, prec: Option<u8>) -> String {
+    let s = (day_ns / 1_000_000_000) as i64;
+    let ns = (day_ns % 1_000_000_000) as i64;
+    format!("{:02}:{:02}:{:02}{}", s / 3600, (s / 60) % 60, s % 60, fmt_fraction(ns, prec))
+}
+
+/// `date sep time` of a civil reading in ns since 1970-01-01T00:00:00 local.
+pub fn fmt_civil(civil_ns: i128, sep: u8, prec: Option<u8>) -> String {
+    const DAY: i128 = 86_400 * 1_000_000_000;
+    let (y, m, d) = cal::civil_from_days(civil_ns.div_euclid(DAY) as i64);
+    format!("{}{}{}", fmt_date(y, m, d), sep as char, fmt_time(civil_ns.rem_euclid(DAY), prec))
+}
+
+/// An offset (seconds east) rounded to whole minutes the way jiff documents
+/// it: to the nearest minute, half away from zero, except that nothing is
+/// ever rounded up to 26:00 (the largest printable offset is 25:59).
+pub fn round_offset_to_minute(off: i64) -> i64 {
+    let a = off.abs();
+    let mut mins = a / 60;
+    if a % 60 >= 30 && mins < 25 * 60 + 59 {
+        mins += 1;
+    }
+    off.signum() * mins * 60
+}
+
+/// `+HH:MM` / `-HH:MM` of an offset, rounded to the minute. The sign is that
+/// of the rounded offset (so -20 s prints `+00:00`: `-00:00` is documented as
+/// never written for an offset and means "offset unknown" in RFC 3339/9557).
+pub fn fmt_offset_min(off: i64) -> String {
+    let r = round_offset_to_minute(off);
+    let (neg, r) = (r < 0, r.abs());
+    format!("{}{:02}:{:02}", if neg { '-' } else { '+' }, r / 3600, (r / 60) % 60)
+}
+
+/// `+HH:MM[:SS]`: the full-precision form documented for lone time zones.
+pub fn fmt_offset_full(off: i64) -> String {
+    let a = off.abs();
+    let mut s = format!("{}{:02}:{:02}", if off < 0 { '-' } else { '+' }, a / 3600, (a / 60) % 60);
+    if a % 60 != 0 {
+        s.push_str(&format!(":{:02}", a % 60));
+    }
+    s
 }
